@@ -1194,23 +1194,9 @@ fn get_nonterminals_resolution_order(
     let mut result: Vec<Ustr> = Default::default();
     let mut path: Vec<(Ustr, HumanSpan)> = Default::default();
 
+    // If every definition is depended on, there must be a cycle somewhere: the traversal of
+    // the yet unreached definitions below reports it.
     let not_depended_on_vars = get_not_depended_on_nonterminals(&dependency_graph);
-    if not_depended_on_vars.is_empty() {
-        // Take any vertex and compute a sample cycle to illustrate to the user
-        let any_vertex = dependency_graph.keys().next().unwrap();
-        path.push((
-            *any_vertex,
-            nonterminal_definitions.get(any_vertex).unwrap().lhs_span,
-        ));
-        traverse_nonterminal_dependencies_dfs(
-            *any_vertex,
-            &dependency_graph,
-            &mut path,
-            &mut visited,
-            &mut result,
-        )?;
-        unreachable!();
-    }
 
     for vertex in not_depended_on_vars {
         debug_assert!(!visited.contains(&vertex));
